@@ -258,7 +258,7 @@ class LOC(dns.rdata.Rdata):
         t = tok.get_string()
         if t[-1] == "m":
             t = t[0:-1]
-        altitude = float(t) * 100.0  # m -> cm
+        altitude = round(float(t) * 100.0)  # m -> cm, exactly
 
         tokens = tok.get_remaining(max_tokens=3)
         if len(tokens) >= 1:
